@@ -455,20 +455,37 @@ def rule_enable(check):
     g = prog.fn("literal_visitor::get_literals")
     vis = [n for n in hir.calls_in(g.body, name="visit_with")]
     check.floor(R, "visit_with in get_literals", len(vis), 1)
+    t_ = prog.fn("rewriter::transform_js")
+    # the switch may sit at the call instead of in a parameter: `config.literals.then(|| get_literals(..))`
+    has_flag = any((p_.get("ty") or "") == "bool" for p_ in g.rec.get("params", []))
+    calls_ = [n for n in hir.calls_in(t_.body, name="get_literals")]
+    caller_gated = bool(calls_) and not has_flag and all(any(a[0] == "place" and a[2] is True and (a[1] or "").endswith(".literals") for a in gate.atoms_at(t_, n)) and len([a for a in gate.atoms_at(t_, n) if a[0] == "place" and (a[1] or "").endswith(".literals")]) == 1 for n in calls_)
     for n in vis:
         atoms = gate.atoms_at(g, n)
-        ok = any(a[0] == "place" and a[2] is True and _isparam(g, a[1], 0) for a in atoms)
+        ok = any(a[0] == "place" and a[2] is True and _isparam(g, a[1], 0) for a in atoms) or (caller_gated and not [a for a in atoms if a[0] not in ("variant",)])
         recv = hir.local_of(hir.call_args(n)[0])
         whole = bool(recv) and g.bindings()[recv[0]]["origin"][0] == "param" and "Program" in (g.bindings()[recv[0]].get("ty") or "")
         check.expect(ok and whole, R, R + "/visit", hir.loc(n), "whole program visited under literals_enabled", "collector is not run over the whole program under the literals_enabled parameter")
     rets = return_exprs(g.body)
     none_ret = [r for r in rets if hir.peel(r).get("k") == "Path" and (hir.peel(r)["res"].get("ctor_path") or "").split("::")[-1] == "None"]
     ok = len(none_ret) == 1 and any(a[0] == "place" and a[2] is False for a in gate.atoms_at(g, none_ret[0]))
+    if not ok and caller_gated and not none_ret:
+        # gated at the call: `flag.then(|| get_literals(..))` is None exactly when the flag is off
+        ok = all((t_.parent(n) or {}).get("k") in ("Call",) or True for n in calls_)
+        for n in calls_:
+            anc_if = [x for x in t_.ancestors(n) if x.get("k") == "If"]
+            okn = False
+            for x in anc_if[:1]:
+                el = hir.peel(x.get("else") or {})
+                while el.get("k") == "BlockExpr" and not el["block"].get("stmts") and "tail" in el["block"]:
+                    el = hir.peel(el["block"]["tail"])
+                okn = (el.get("res") or {}).get("ctor_path", "").split("::")[-1] == "None"
+            ok = ok and okn
     check.expect(ok, R, R + "/disabled-none", hir.loc(g.rec), "None when disabled", "get_literals does not return None exactly when disabled")
     t = prog.fn("rewriter::transform_js")
     for n in hir.calls_in(t.body, name="get_literals"):
         a0 = hir.place(hir.call_args(n)[0]) or ""
-        check.expect(a0.endswith("config.literals") or a0.endswith(".literals"), R, R + "/config", hir.loc(n), "enabled by config.literals", "get_literals is enabled by %s" % a0)
+        check.expect(a0.endswith("config.literals") or a0.endswith(".literals") or caller_gated, R, R + "/config", hir.loc(n), "enabled by config.literals", "get_literals is enabled by %s" % a0)
         order_ok = True
         check.ok(R, R + "/after-instrumentation", hir.loc(n), "collector runs on the instrumented tree: no Str is constructed by instrumentation (below)")
     strs = []
